@@ -384,7 +384,7 @@ pub fn run_all(ctx: &mut Ctx, replay: Option<&Path>) {
     }
     ctx.regressions(&p);
     ctx.regressions(&r);
-    ctx.random(&p, prep_strategy(), ctx.tier.pick(30_000, 300_000));
+    ctx.random(&p, prep_strategy(), ctx.tier.pick(100_000, 500_000));
     let runs = inst_strategy(Kind::Real).prop_flat_map(|inst| (tpl_strategy(18, inst.dim()), Just(inst), 5u32..60, any::<u64>())).prop_map(|(tpl, inst, iters, seed)| RunSpec { tpl, inst, iters, seed });
-    ctx.random(&r, runs, ctx.tier.pick(1500, 15_000));
+    ctx.random(&r, runs, ctx.tier.pick(5000, 25_000));
 }
